@@ -28,7 +28,7 @@ func init() {
 	register("T-CONSTRUCTS", "every generated construct builds a Group whose open / close / separator token sequences, multi flag and name agree with an independent table of Go's grammar; X and XFunc twins are identical", 100, ruleConstructs)
 	register("T-KEYWORDS", "every generated keyword / identifier method emits exactly the Go keyword or predeclared identifier it is named after, with the matching token type", 40, ruleKeywords)
 	register("T-TOKCONTENT", "every token literal stores a content value of the static type that token.render / token.isNull assert for its token type (so their type assertions cannot fail)", 50, ruleTokContent)
-	register("T-REGEX", "the alias guesser keeps only [A-Za-z0-9] characters, never returns an empty name and never one starting with a digit", 4, ruleRegex)
+	register("T-REGEX", "abstract interpretation of the alias guesser over rune sets: every returned name contains only identifier letters/digits, is non-empty and does not start with a digit", 4, rulePXRegex)
 }
 
 // varInit finds the initialiser expression of a package-level variable.
